@@ -46,3 +46,57 @@ pub fn run(name: &str) -> i32 {
         }
     }
 }
+
+
+/// Oracle concretisation for the compressed projective decoders (`--scenario decode-offsubgroup g1p|g2p`):
+/// searches a small x-coordinate whose unchecked decompression gives a curve point OUTSIDE the prime-order
+/// subgroup and runs the REAL checked decoder `GroupEncoding::from_bytes` of the projective type on it.
+/// exit 1 = the real decoder accepts a point outside the subgroup, 0 = it rejects.
+pub fn decode_offsubgroup(which: &str) -> i32 {
+    use group::GroupEncoding;
+    use midnight_curves::{G1Affine, G1Projective, G2Affine, G2Projective};
+    for x in 1u32..400 {
+        for sign in [0u8, 0x20] {
+            match which {
+                "g1p" => {
+                    let mut b = [0u8; 48];
+                    b[44..48].copy_from_slice(&x.to_be_bytes());
+                    b[0] |= 0x80 | sign;
+                    let mut r = <G1Affine as GroupEncoding>::Repr::default();
+                    r.as_mut().copy_from_slice(&b);
+                    let p: Option<G1Affine> = Option::from(G1Affine::from_bytes_unchecked(&r));
+                    let Some(p) = p else { continue };
+                    if bool::from(p.is_torsion_free()) {
+                        continue;
+                    }
+                    let mut rp = <G1Projective as GroupEncoding>::Repr::default();
+                    rp.as_mut().copy_from_slice(&b);
+                    let acc = bool::from(G1Projective::from_bytes(&rp).is_some());
+                    println!("witness x={x} sign={sign:#x}: on E(Fp), outside G1; real G1Projective::from_bytes accepted={acc}");
+                    return acc as i32;
+                }
+                "g2p" => {
+                    // x = (c0 = x, c1 = 0): compressed G2 is c1 (48 bytes, flags in byte 0) followed by c0
+                    let mut b = [0u8; 96];
+                    b[92..96].copy_from_slice(&x.to_be_bytes());
+                    b[0] |= 0x80 | sign;
+                    let mut r = <G2Affine as GroupEncoding>::Repr::default();
+                    r.as_mut().copy_from_slice(&b);
+                    let p: Option<G2Affine> = Option::from(G2Affine::from_bytes_unchecked(&r));
+                    let Some(p) = p else { continue };
+                    if bool::from(p.is_torsion_free()) {
+                        continue;
+                    }
+                    let mut rp = <G2Projective as GroupEncoding>::Repr::default();
+                    rp.as_mut().copy_from_slice(&b);
+                    let acc = bool::from(G2Projective::from_bytes(&rp).is_some());
+                    println!("witness x=({x},0) sign={sign:#x}: on E'(Fp2), outside G2; real G2Projective::from_bytes accepted={acc}");
+                    return acc as i32;
+                }
+                _ => return 4,
+            }
+        }
+    }
+    println!("no witness found");
+    0
+}
